@@ -1260,6 +1260,9 @@ struct Session<'l, T: Subject> {
     step_no: usize,
     applied: Vec<String>,
     leaked_guards: usize,
+    /// `VERIF_TRACE=<path>`: the sequence so far (and the op about to run) is written there
+    /// before every step, on one line, so that a crash can be localised
+    trace: Option<(String, String)>,
     /// lines not yet sent to the model (header first), and what the implementation/oracle did
     queue: Vec<String>,
     pending: Vec<Pending>,
@@ -1297,6 +1300,7 @@ impl<'l, T: Subject> Session<'l, T> {
             step_no: 0,
             applied: vec![],
             leaked_guards: 0,
+            trace: std::env::var("VERIF_TRACE").ok().filter(|p| !p.is_empty()).map(|p| (p, hdr.lines().join(" ; "))),
             queue,
             pending: vec![],
         })
@@ -1740,6 +1744,9 @@ impl<'l, T: Subject> Session<'l, T> {
 // the std oracle (plain `Vec<u8>` semantics, written independently of the model)
 // ---------------------------------------------------------------------------------------------
 
+/// set around a panic the ORACLE is expected to raise (std refusing the call)
+static QUIET: std::sync::atomic::AtomicBool = std::sync::atomic::AtomicBool::new(false);
+
 /// Expected return value: `exact` text, or a class when std has no more to say.
 #[derive(Clone, Debug, PartialEq)]
 enum Exp {
@@ -1970,12 +1977,14 @@ fn oracle_step(pool: &mut [Option<Vec<u8>>], srcs: &[&'static [u8]], op: &Op, fl
         }
         Op::STruncate { h, n } => {
             let mut s = String::from_utf8(pool[*h].take().unwrap()).expect("oracle value is UTF-8");
-            // `String::truncate` panics off a char boundary
+            // `String::truncate` panics off a char boundary (an expected panic: kept silent)
+            QUIET.store(true, std::sync::atomic::Ordering::Relaxed);
             let r = catch_unwind(AssertUnwindSafe(|| {
                 let mut t = s.clone();
                 t.truncate(*n);
                 t
             }));
+            QUIET.store(false, std::sync::atomic::Ordering::Relaxed);
             match r {
                 Ok(t) => {
                     s = t;
@@ -2126,6 +2135,17 @@ impl<'l, T: Subject> Session<'l, T> {
             return Ok(StepRes::Skipped);
         }
         let line = op.line();
+        if let Some((path, head)) = &self.trace {
+            let mut t = head.clone();
+            for l in &self.applied {
+                t.push_str(" ; ");
+                t.push_str(l);
+            }
+            t.push_str(" ; ");
+            t.push_str(&line);
+            t.push('\n');
+            let _ = std::fs::write(path, t);
+        }
         self.applied.push(line.clone());
         let step = self.step_no;
         self.step_no += 1;
@@ -2345,8 +2365,15 @@ impl<'l, T: Subject> Session<'l, T> {
         alloc::set_mode(alloc::OFF);
         let model = self.flush();
         let step = self.step_no;
+        let corrupted = local.as_ref().map_or(false, heap_corrupting);
         for s in self.pool.iter_mut() {
-            *s = None;
+            if corrupted {
+                // handles of a corrupted heap are not dropped (their destructors would free
+                // memory again): the tracked blocks are released by `end_sequence`
+                std::mem::forget(s.take());
+            } else {
+                *s = None;
+            }
         }
         let mut v = alloc::take_violations();
         alloc::end_sequence();
@@ -2401,9 +2428,43 @@ struct Stats {
     disagreements: Vec<serde_json::Value>,
     seen: BTreeSet<String>,
     shrink_runs: u64,
+    /// where and how stats.json is (re)written as soon as a disagreement is recorded
+    out: Option<String>,
+    meta: serde_json::Map<String, serde_json::Value>,
+    started: Option<std::time::Instant>,
+    /// set once enough disagreements have been collected: every loop winds down
+    stop: bool,
 }
 
+const MAX_DISAGREEMENTS: usize = 20;
+
+
 impl Stats {
+    fn json(&self) -> String {
+        let mut out = serde_json::Map::new();
+        out.insert("evaluations".into(), self.evaluations.into());
+        out.insert("sequences".into(), self.sequences.into());
+        out.insert("distinct_nontrivial".into(), self.triples.len().into());
+        for (k, v) in &self.meta {
+            out.insert(k.clone(), v.clone());
+        }
+        out.insert("seconds".into(), self.started.map_or(0.0, |t| t.elapsed().as_secs_f64()).into());
+        out.insert("shrink_runs".into(), self.shrink_runs.into());
+        out.insert("per_type_backend".into(), serde_json::json!(self.by_type));
+        out.insert("distribution".into(), serde_json::json!(self.dist));
+        out.insert("samples".into(), serde_json::json!(self.samples));
+        out.insert("disagreements".into(), serde_json::json!(self.disagreements));
+        serde_json::to_string_pretty(&serde_json::Value::Object(out)).unwrap()
+    }
+    /// (re)writes stats.json: called on every new disagreement and at the end
+    fn flush(&self) {
+        if let Some(p) = &self.out {
+            let tmp = format!("{p}.tmp");
+            if std::fs::write(&tmp, self.json()).is_ok() {
+                let _ = std::fs::rename(&tmp, p);
+            }
+        }
+    }
     fn record(&mut self, ty: &str, backend: &str, info: &StepInfo) {
         self.evaluations += 1;
         let key = format!("{}|{}|{}", info.op, info.pre, info.outcome);
@@ -2523,7 +2584,8 @@ fn shrink<T: Subject>(hdr: &Hdr, ops: Vec<Op>, target: &Dis, lean: &mut Option<L
     }
     // the failing op alone on a fresh value with the same contents as its target
     if best.len() > 2 {
-        if let (Some(op), Some(content)) = (best.get(best_dis.step).cloned(), last_pre.borrow().clone()) {
+        let pre: Option<Vec<u8>> = last_pre.borrow().clone();
+        if let (Some(op), Some(content)) = (best.get(best_dis.step).cloned(), pre) {
             if let (Some(h), _) = op.slots() {
                 for ctor in [Op::FromSlice { d: h, bs: content.clone() }, Op::FromVec { d: h, bs: content.clone(), cap: content.len() + 8 }] {
                     let cand = vec![ctor, op.clone()];
@@ -2581,28 +2643,59 @@ fn shrink<T: Subject>(hdr: &Hdr, ops: Vec<Op>, target: &Dis, lean: &mut Option<L
     (best, best_dis)
 }
 
+/// a monitor class after which the process's heap can no longer be trusted
+fn heap_corrupting(d: &Dis) -> bool {
+    d.kind == "monitor" && d.sub != "utf8" && !d.sub.ends_with(alloc::violation_name(alloc::V_LEAK))
+}
+
+fn dis_json(hdr: &Hdr, ops: &[Op], dis: &Dis, shrunk: bool) -> serde_json::Value {
+    let mut input = hdr.lines();
+    input.extend(ops.iter().map(|o| o.line()));
+    serde_json::json!({
+        "kind": dis.kind, "class": dis.sub, "step": dis.step, "input": input,
+        "expected": dis.expected, "observed": dis.observed, "profile": profile(), "shrunk": shrunk,
+    })
+}
+
 fn report<T: Subject>(st: &mut Stats, hdr: &Hdr, ops: Vec<Op>, dis: Dis, lean: &mut Option<LeanDriver>, save: &Option<String>) {
-    // one report per (kind, sub, op at the failing step, type, backend)
+    if st.stop {
+        return;
+    }
+    // 1. on disk at once, unshrunk (shrinking re-executes a sequence that may corrupt the heap)
+    st.disagreements.push(dis_json(hdr, &ops[..ops.len().min(dis.step + 1)], &dis, false));
+    st.flush();
+    let slot = st.disagreements.len() - 1;
+    // 2. shrink, then replace the record
     let mut budget = 600u64;
     let (ops, dis) = shrink::<T>(hdr, ops, &dis, lean, &mut budget);
     st.shrink_runs += 600 - budget;
     let last = ops.get(dis.step.min(ops.len().saturating_sub(1))).map(|o| o.name()).unwrap_or("end");
+    // one report per (kind, class, op at the failing step, type, backend)
     let key = format!("{}|{}|{}|{}|{}", dis.kind, dis.sub, last, hdr.ty, hdr.backend);
-    if !st.seen.insert(key.clone()) || st.disagreements.len() >= 40 {
+    if !st.seen.insert(key.clone()) {
+        st.disagreements.remove(slot);
+        st.flush();
         return;
     }
-    let mut input = hdr.lines();
-    input.extend(ops.iter().map(|o| o.line()));
+    let rec = dis_json(hdr, &ops, &dis, true);
+    let input: Vec<String> = rec["input"].as_array().unwrap().iter().map(|x| x.as_str().unwrap().to_string()).collect();
+    st.disagreements[slot] = rec;
+    st.flush();
     eprintln!("DISAGREEMENT {key} at step {}:\n  {}\n  expected {}\n  observed {}", dis.step, input.join("\n  "), dis.expected, dis.observed);
     if let Some(dir) = save {
         let _ = std::fs::create_dir_all(dir);
         let name = format!("{dir}/{}-{}-{}-{}.ops", dis.kind, hdr.ty, hdr.backend, st.disagreements.len());
         let _ = std::fs::write(name, input.join("\n") + "\n");
     }
-    st.disagreements.push(serde_json::json!({
-        "kind": dis.kind, "class": dis.sub, "step": dis.step, "input": input,
-        "expected": dis.expected, "observed": dis.observed, "profile": profile(),
-    }));
+    if st.disagreements.len() >= MAX_DISAGREEMENTS {
+        st.stop = true;
+    }
+    if heap_corrupting(&dis) {
+        // the implementation freed, overran or kept a view of memory it does not own: nothing
+        // this process does afterwards can be trusted
+        eprintln!("coredrive: memory-safety monitor fired; stats written, stopping");
+        std::process::exit(1);
+    }
 }
 
 // ---------------------------------------------------------------------------------------------
@@ -3066,6 +3159,9 @@ fn exhaustive<T: Subject>(backend: &str, ceil: u64, depth: usize, st: &mut Stats
     fn rec<T: Subject>(
         hdr: &Hdr, prefix: &mut Vec<Op>, depth: usize, st: &mut Stats, lean: &mut Option<LeanDriver>, save: &Option<String>, count: &mut u64,
     ) -> Result<(), String> {
+        if st.stop {
+            return Ok(());
+        }
         // run the prefix, compute the alphabet in the reached state
         let (alpha, dis) = {
             let mut s = Session::<T>::new(hdr, lean.as_mut())?;
@@ -3096,6 +3192,9 @@ fn exhaustive<T: Subject>(backend: &str, ceil: u64, depth: usize, st: &mut Stats
             return Ok(());
         }
         for op in alpha {
+            if st.stop {
+                break;
+            }
             prefix.push(op);
             rec::<T>(hdr, prefix, depth, st, lean, save, count)?;
             prefix.pop();
@@ -3196,7 +3295,7 @@ fn str_grid<T: Subject>(backend: &str, ceil: u64, st: &mut Stats, lean: &mut Opt
         if let Some(d) = r.dis {
             let applied: Vec<Op> = r.applied.iter().filter_map(|l| Op::parse(l)).collect();
             report::<T>(st, &hdr, applied, d, lean, save);
-            if st.disagreements.len() >= 40 {
+            if st.stop {
                 break;
             }
         }
@@ -3270,7 +3369,7 @@ fn replay_file(path: &str, st: &mut Stats, lean: &mut Option<LeanDriver>, save: 
             return Err(format!("{path}: no `input` array found"));
         }
     } else {
-        seqs.push(text.lines().map(str::to_string).collect());
+        seqs.push(text.lines().flat_map(|l| l.split(" ; ")).map(str::to_string).collect());
     }
     for s in seqs {
         let bad = replay_lines(&s, st, lean, save)?;
@@ -3285,7 +3384,7 @@ fn campaign<T: Subject>(backend: &str, n: usize, seed: u64, st: &mut Stats, lean
     let mut rng = Rng::new(seed.wrapping_mul(0x9E37_79B9).wrapping_add(salt));
     for _ in 0..n {
         random_sequence::<T>(&mut rng, backend, st, lean, save)?;
-        if st.disagreements.len() >= 40 {
+        if st.stop {
             break;
         }
     }
@@ -3363,9 +3462,30 @@ fn run_all(cli: &hipverif_harness::util::Cli, st: &mut Stats, lean: &mut Option<
 
 fn main() {
     let cli = parse_cli();
-    std::panic::set_hook(Box::new(|_| {}));
+    // panics of the implementation (inside the counted region) are expected outcomes and stay
+    // silent; a panic anywhere else is a harness bug and must be visible
+    std::panic::set_hook(Box::new(|info| {
+        if alloc::current_mode() != alloc::COUNT && !QUIET.load(std::sync::atomic::Ordering::Relaxed) {
+            let prev = alloc::set_mode(alloc::OFF);
+            eprintln!("coredrive: harness panic: {info}");
+            alloc::set_mode(prev);
+        }
+    }));
     let started = std::time::Instant::now();
     let mut st = Stats::default();
+    st.out = cli.out.clone();
+    st.started = Some(started);
+    for (k, v) in [
+        ("rule", serde_json::json!("run in progress (stats written early because a disagreement was recorded)")),
+        ("exhaustive", false.into()),
+        ("tier", cli.tier.clone().into()),
+        ("seed", cli.seed.into()),
+        ("profile", profile().into()),
+        ("with_model", cli.lean.is_some().into()),
+        ("complete", false.into()),
+    ] {
+        st.meta.insert(k.into(), v);
+    }
     let mut lean = match &cli.lean {
         Some(p) => match LeanDriver::spawn(p) {
             Ok(l) => Some(l),
@@ -3384,29 +3504,16 @@ fn main() {
     let rule = match res {
         Ok(r) => r,
         Err(e) => {
+            st.flush();
             eprintln!("internal error: {e}");
             std::process::exit(2);
         }
     };
-    let out = serde_json::json!({
-        "evaluations": st.evaluations,
-        "sequences": st.sequences,
-        "distinct_nontrivial": st.triples.len(),
-        "rule": rule,
-        "exhaustive": false,
-        "tier": cli.tier, "seed": cli.seed, "profile": profile(),
-        "with_model": cli.lean.is_some(),
-        "seconds": started.elapsed().as_secs_f64(),
-        "shrink_runs": st.shrink_runs,
-        "per_type_backend": st.by_type,
-        "distribution": st.dist,
-        "samples": st.samples,
-        "disagreements": st.disagreements,
-    });
-    let text = serde_json::to_string_pretty(&out).unwrap();
-    match &cli.out {
-        Some(p) => std::fs::write(p, text).expect("write stats"),
-        None => println!("{text}"),
+    st.meta.insert("rule".into(), rule.into());
+    st.meta.insert("complete".into(), true.into());
+    st.flush();
+    if cli.out.is_none() {
+        println!("{}", st.json());
     }
     eprintln!(
         "coredrive[{}]: {} steps in {} sequences, {} distinct (op,repr,outcome), {} disagreement(s), {:.1}s",
